@@ -26,9 +26,10 @@ func Register(name string, ptr interface{}) { registry = append(registry, regVar
 const ModulePrefix = "github.com/makiuchi-d/gozxing"
 
 type walker struct {
-	visited map[visitKey]uint64
+	visited map[visitKey]uint64 // ancestors on the current path
 	h       uint64
 	words   int
+	budget  *int // remaining words; the walk stops (and the snapshot is marked truncated) at zero
 }
 
 type visitKey struct {
@@ -40,6 +41,9 @@ func (w *walker) mixin(v uint64) {
 	w.h ^= v
 	w.h *= 1099511628211
 	w.words++
+	if w.budget != nil {
+		*w.budget--
+	}
 }
 
 func (w *walker) str(s string) {
@@ -61,7 +65,7 @@ func ownType(t reflect.Type) bool {
 }
 
 func (w *walker) walk(v reflect.Value, depth int) {
-	if depth > 200 {
+	if depth > 200 || (w.budget != nil && *w.budget <= 0) {
 		return
 	}
 	switch v.Kind() {
@@ -90,16 +94,20 @@ func (w *walker) walk(v reflect.Value, depth int) {
 		}
 		p := v.Pointer()
 		k := visitKey{p, v.Type()}
-		if id, ok := w.visited[k]; ok {
-			w.mixin(id)
-			return
-		}
-		w.visited[k] = uint64(len(w.visited) + 1)
 		w.mixin(uint64(p)) // identity: a replaced object is a change
+		if _, onPath := w.visited[k]; onPath {
+			return // cycle: this object is an ancestor on the current path
+		}
 		if !ownType(v.Type().Elem()) {
 			return
 		}
+		// path-based cycle detection (the set holds only ancestors): the
+		// digest of a sub-structure is then a function of that sub-structure
+		// and its ancestors alone, independent of what was walked before -
+		// in particular of map iteration order
+		w.visited[k] = 1
 		w.walk(v.Elem(), depth+1)
+		delete(w.visited, k)
 	case reflect.Slice:
 		if v.IsNil() {
 			w.mixin(0)
@@ -108,11 +116,12 @@ func (w *walker) walk(v reflect.Value, depth int) {
 		w.mixin(uint64(v.Len()))
 		w.mixin(uint64(v.Pointer()))
 		k := visitKey{v.Pointer(), v.Type()}
+		if _, onPath := w.visited[k]; onPath && v.Len() > 0 {
+			return
+		}
 		if v.Len() > 0 {
-			if _, ok := w.visited[k]; ok {
-				return
-			}
-			w.visited[k] = uint64(len(w.visited) + 1)
+			w.visited[k] = 1
+			defer delete(w.visited, k)
 		}
 		// walk the whole capacity: an append into spare capacity is a write
 		full := v
@@ -145,9 +154,9 @@ func (w *walker) walk(v reflect.Value, depth int) {
 		var sum uint64
 		it := v.MapRange()
 		for it.Next() {
-			// a fresh visited set per entry: the digest of an entry must not
-			// depend on which entries the (random) iteration order met first
-			sub := &walker{visited: map[visitKey]uint64{}}
+			// each entry is digested on its own (same ancestors, own hash
+			// state), and the entry digests are combined commutatively
+			sub := &walker{visited: w.visited, budget: w.budget}
 			sub.walk(it.Key(), depth+1)
 			sub.walk(it.Value(), depth+1)
 			sum += sub.h*0x9e3779b97f4a7c15 + 1
@@ -183,11 +192,15 @@ func (w *walker) walk(v reflect.Value, depth int) {
 func Snapshot() (map[string]uint64, int) {
 	out := make(map[string]uint64, len(registry))
 	words := 0
+	budget := 20000000
 	for _, r := range registry {
-		w := &walker{visited: map[visitKey]uint64{}, h: 14695981039346656037}
+		w := &walker{visited: map[visitKey]uint64{}, h: 14695981039346656037, budget: &budget}
 		w.walk(reflect.ValueOf(r.ptr).Elem(), 0)
 		out[r.name] = w.h
 		words += w.words
+	}
+	if budget <= 0 {
+		words = -1 // truncated: reported by the driver as a harness problem
 	}
 	return out, words
 }
